@@ -2,7 +2,6 @@
    the regex it builds accepts exactly the paths the DEP-5 reading of the pattern accepts. *)
 From V.model Require Import Base Glob.
 From V.proofs Require Import BaseP.
-Set Default Timeout 60.
 
 Local Open Scope N_scope.
 
